@@ -1,4 +1,7 @@
 import ScVerif.C13.InvokeLemmas
+import ScVerif.C13.InvokeSrv
+import ScVerif.C13.InvokeFrozen
+import ScVerif.C13.PropsSelect
 /-!
 # C13 — a unary call (`wrapper.Invoke`) is released by its caller's context
 
@@ -8,6 +11,11 @@ can be blocked in (`clientStream.SendMsg`, `RecvMsg`, `Header` inside `collectMe
 caller's context are not a fixed program): each theorem constrains them only by what it says — e.g. "in every
 instant the caller's context has ended and the handler has not returned" for a handler busy with work that does
 not watch its context.  A unary method of a generated trait wrapper is this function (Invoke.lean).
+
+Second part: `hstep` / `hruns` (InvokeSrv.lean) follow the goroutine Invoke starts for the handler — request decode
+(`ss.RecvMsg`), the server's method as steps of its own, `ss.SendMsg(reply)`, `Close` — in the same way; and
+C13_invoke_agrees_with_rendezvous_reads connects the select-level Invoke with the deterministic reads
+`Wrap.terminal` / `Wrap.header` / `Wrap.trailer` the rendezvous model (`Wrap.run`) uses for the client ops `r,h,t`.
 -/
 namespace ScVerif.C13
 open Wrap
@@ -197,5 +205,68 @@ example :
                  ⟨{ header := [("a", "1")], ctxErr := some .deadline }, none, false⟩]).contains
       (.done (.full (.ev (.aborted .deadline)) [] [])) = true := by
   decide
+
+/-- **No goroutine is left behind a unary call whose caller has gone.**  The stream's context has ended (the caller
+cancelled, its deadline passed): wherever the handler goroutine is — decoding the request, anywhere in work of its
+own that takes `n` more steps and never looks at its context, handing over its reply — it reaches `Close` within
+its own remaining steps plus its two blocking calls, on every path: neither `ss.RecvMsg` nor `ss.SendMsg(res)`
+waits for a caller that is no longer there. -/
+theorem C13_invoke_handler_goroutine_ends (cs : List SChans) (h : ∀ c ∈ cs, ctxDone c.w = true) (pc : HPc)
+    (hn : pc.rank ≤ cs.length) : ∀ pc' ∈ hruns pc cs, pc'.isClosed = true :=
+  hruns_complete cs h pc hn
+
+/-- **The late reply is dropped, and the handler is told why.**  The caller's context ended (`a`) and the caller is
+not inside RecvMsg any more (Invoke has returned): the `ss.SendMsg(res)` of a handler that finishes afterwards has
+exactly one ready case — the context's — and the goroutine closes the stream with Canceled / DeadlineExceeded;
+nobody is handed the reply. -/
+theorem C13_invoke_late_reply_dropped (c : SChans) (a : Abort) (m : Nat) (ha : c.w.ctxErr = some a)
+    (ht : c.cTaker = false) : hstep (.send m) c = [.closed (cancelFin a)] := by
+  simp [hstep, ssendResults, ctxDone, srvCtxErr, ha, ht]
+
+/-- With the caller still there (context live, inside RecvMsg) the reply is handed over and the call ends OK. -/
+theorem C13_invoke_reply_handed_over (c : SChans) (m : Nat) (ha : c.w.ctxErr = none) (hc : c.w.closed = none)
+    (ht : c.cTaker = true) : hstep (.send m) c = [.closed .ok] := by
+  simp [hstep, ssendResults, ctxDone, ha, hc, ht]
+
+/-- **Invoke reads what the rendezvous model reads.**  In every state of the stream in which the handler is not
+offering a message, whatever Invoke (inside RecvMsg, stream kept in that state) hands back — on every combination
+of ready select cases — is the terminal event, the header and the trailer the deterministic functions of the
+rendezvous model give for the client ops `r`, `h`, `t` in that state; and when Invoke does not return, the
+rendezvous model's RecvMsg has no terminal event either (it blocks too). -/
+theorem C13_invoke_agrees_with_rendezvous_reads (w : State) (tk : Bool) :
+    (∀ r ∈ frozen .recv ⟨w, none, tk⟩, ∃ e md, terminal w = some e ∧ header w = some md ∧
+      r = .full (.ev e) md (trailer w)) ∧
+    (frozen .recv ⟨w, none, tk⟩ = [] → terminal w = none) := by
+  constructor
+  · intro r hr
+    obtain ⟨r', hr', md, hmd, rfl⟩ := mem_frozen_recv hr
+    have h1 := (C13_recv_select_agrees_with_terminal w tk).1 r' hr'
+    have h2 := (C13_header_select_agrees w).1 md hmd
+    cases ht : terminal w with
+    | none => simp [ht] at h1
+    | some e =>
+      simp [ht] at h1
+      exact ⟨e, md, rfl, h2.symm, by simp [h1, trailer]⟩
+  · intro hnil
+    -- if RecvMsg had a terminal event the context has ended, and then Invoke returns
+    cases ht : terminal w with
+    | none => rfl
+    | some e =>
+      exfalso
+      have hd : ctxDone w = true := by
+        cases hc : w.closed <;> cases ha : w.ctxErr <;> simp_all [terminal, ctxDone]
+      have hall := C13_invoke_returns_within_three_selects ⟨w, none, tk⟩ ⟨w, none, tk⟩ ⟨w, none, tk⟩ hd hd hd .recv
+      have hne : runs .recv [⟨w, none, tk⟩, ⟨w, none, tk⟩, ⟨w, none, tk⟩] ≠ [] := runs_ne_nil _ _
+      obtain ⟨q, hq⟩ := List.exists_mem_of_ne_nil _ hne
+      have hqd := hall q hq
+      cases q with
+      | done r =>
+        have : r ∈ frozen .recv ⟨w, none, tk⟩ := mem_frozen.mpr hq
+        simp [hnil] at this
+      | _ => simp [IPc.isDone] at hqd
+
+/-- Non-vacuity: a handler with three steps of its own work ahead, the caller cancelled. -/
+example : hruns (.work 3 7 .ok) (List.replicate 5 ⟨{ ctxErr := some .cancel }, none, false, true⟩) =
+    [.closed (cancelFin .cancel)] := by decide
 
 end ScVerif.C13
